@@ -701,6 +701,52 @@ func TestC15Burst(t *testing.T) {
 					s.expectLogin(l, "pw", ctx)
 				}
 			}
+			// nobody edits any more; all administrators ask for the account listing at the same instant, three times.  Each
+			// of them is shown every account exactly once.
+			for i := 0; i < 12; i++ {
+				l := fmt.Sprintf("extra%02d", i)
+				s.mustReply(s.admin.Request(hlref.TranNewUser, hlref.F(hlref.FUserLogin, hlref.Obfuscate([]byte(l))), sfld(hlref.FUserName, "Extra"), hlref.F(hlref.FUserPassword, hlref.Obfuscate([]byte("pw"))), hlref.F(hlref.FUserAccess, make([]byte, 8))), "new-user "+l)
+				s.model[l] = &c15acct{name: "Extra", pw: "pw"}
+			}
+			for rep := 0; rep < 3; rep++ {
+				ids := make([]uint32, len(admins))
+				for a, c := range admins {
+					c.TakeInbox()
+					ids[a] = c.NewID()
+					c.SendAsync(hlref.Tran{Type: hlref.TranListUsers, ID: ids[a]}.Encode())
+				}
+				settle(0)
+				for a, c := range admins {
+					var lr *hlref.Tran
+					for _, tr := range c.TakeInbox() {
+						if tr.IsReply == 1 && tr.ID == ids[a] {
+							x := tr
+							lr = &x
+						}
+					}
+					if lr == nil || lr.Err != 0 {
+						rt.Fatalf("%d administrators asked for the account listing at the same instant: administrator %d got no listing", len(admins), a)
+					}
+					seen := map[string]int{}
+					for _, d := range lr.GetAll(hlref.FData) {
+						fs, err := hlref.DecodeSubFields(d)
+						if err != nil {
+							rt.Fatalf("list-users record unparseable: %v", err)
+						}
+						rec := hlref.Tran{Fields: fs}
+						login, _ := rec.Get(hlref.FUserLogin)
+						seen[string(hlref.Obfuscate(login))]++
+					}
+					for l := range s.model {
+						if seen[l] != 1 {
+							rt.Fatalf("%d administrators asked for the account listing at the same instant (nobody was editing): administrator %d is shown account %q %d times (listing: %v)", len(admins), a, l, seen[l], seen)
+						}
+					}
+					if len(seen) != len(s.model)+1 {
+						rt.Fatalf("%d administrators asked for the account listing at the same instant: administrator %d is shown %d accounts, there are %d", len(admins), a, len(seen), len(s.model)+1)
+					}
+				}
+			}
 		})
 		ev.Case(evid.Hash("c15burst", fmt.Sprint(plan)), true, "burst", fmt.Sprintf("admins:%d", nAdmins))
 		ev.Label("burst_rounds", rounds)
